@@ -4,6 +4,8 @@
    (gen/GenMsg.v: the Type* constants joined with msgTypeMap). *)
 From FRP Require Import Model.Frame Model.MsgObj Proofs.FrameProofs Proofs.MsgObjProofs
   Proofs.RegistryCheck gen.GenMsg Golden.GoldenMsg.
+From FRP Require Import Model.FrameSys Proofs.FrameSysProofs.
+From FRP Require Import Model.MsgRec Proofs.MsgRecProofs gen.GenMsgRec gen.GenMsgRecThms.
 Open Scope Z_scope.
 
 Definition today_registry := registry type_consts type_map.
@@ -136,8 +138,294 @@ Theorem C17_first_message_confined : forall tl tw tv o,
 Proof. exact dispatch_confined. Qed.
 Print Assumptions C17_first_message_confined.
 
+(** * System level: first bytes of a connection (Model/FrameSys.v) *)
+
+(* "A peer that sends an unexpected or malformed first message is disconnected without affecting
+   other sessions": for EVERY server state and EVERY event that is not an expected first message
+   (= the bytes, possibly inside a completed TLS / websocket handshake, start with the encoder's
+   image of a registered Login / NewWorkConn / NewVisitorConn frame within the bound whose body
+   encoding/json reads as a message), the state is unchanged, exactly that connection is closed
+   (promptly or at the read timeout), nothing is dispatched and nothing is replied (except what a
+   failing TLS / websocket handshake emits).  All parameters are universally quantified. *)
+Theorem C17_bad_first_message_confined_sys : forall reg tl tw tv force need wsp st ev,
+  ~ fs_expected_first reg tl tw tv force need wsp ev ->
+  exists out, fs_first_step reg tl tw tv force need wsp st ev = Some (st, out) /\
+              fo_closed out = [fe_conn ev] /\ fo_act out = ActClose /\ fo_close out <> KeepOpen /\
+              (fo_reply out = RNone \/ fo_reply out = RTlsAny).
+Proof. exact fs_bad_first_confined. Qed.
+Print Assumptions C17_bad_first_message_confined_sys.
+
+(* the converse: an expected first message always reaches its handler *)
+Theorem C17_expected_first_message_dispatched : forall reg tl tw tv force need wsp st ev st' out,
+  fs_expected_first reg tl tw tv force need wsp ev ->
+  fs_first_step reg tl tw tv force need wsp st ev = Some (st', out) -> fo_act out <> ActClose.
+Proof. exact fs_expected_first_dispatched. Qed.
+Print Assumptions C17_expected_first_message_dispatched.
+
+(* the only first message that can change the session table is a Login its handler ACCEPTS *)
+Theorem C17_first_message_session_table : forall reg tl tw tv force need wsp st ev st' out,
+  fs_first_step reg tl tw tv force need wsp st ev = Some (st', out) ->
+  st' = st \/ exists rid, fe_handler ev = HAccept rid /\ st' = fs_ins_session rid st /\ fo_act out = ActLogin.
+Proof. exact fs_first_step_state. Qed.
+Print Assumptions C17_first_message_session_table.
+
+(* any number of unexpected / malformed first messages, in any order: the server state is what it was *)
+Theorem C17_bad_first_messages_history : forall reg tl tw tv force need wsp jok jnull evs st,
+  Forall (fun ev => ~ fs_expected_first reg tl tw tv force need wsp ev) evs ->
+  fs_run reg tl tw tv force need wsp jok jnull st (map EvFirst evs) = Some st.
+Proof. exact fs_run_bad_firsts. Qed.
+Print Assumptions C17_bad_first_messages_history.
+
+(** * System level: the read loop of an established session *)
+
+(* the loop is total: the fuel it is defined with always suffices *)
+Theorem C17_read_loop_total : forall reg jok s, snd (fs_read_loop reg jok s) <> EndFuel.
+Proof. exact fs_read_loop_no_fuel_end. Qed.
+Print Assumptions C17_read_loop_total.
+
+(* for every byte stream: what ReadMsg hands to the dispatcher is exactly the maximal prefix of
+   well-formed frames (registered type, length within the bound, body accepted by encoding/json),
+   and the loop ends at the first thing that is not one — nothing after it is ever dispatched *)
+Theorem C17_read_loop_maximal_prefix : forall reg jok s,
+  exists ms tail,
+    s = fs_enc_all ms ++ tail /\ Forall (fs_good reg jok) ms /\ ~ fs_starts_good reg jok tail /\
+    fs_read_loop reg jok s = (ms, fs_end_of reg tail) /\ fs_end_of reg tail <> EndFuel.
+Proof. exact fs_read_loop_maximal_prefix. Qed.
+Print Assumptions C17_read_loop_maximal_prefix.
+
+(* ... and that decomposition is the only one *)
+Theorem C17_read_loop_prefix_unique : forall reg jok ms tail,
+  Forall (fs_good reg jok) ms -> ~ fs_starts_good reg jok tail ->
+  fs_read_loop reg jok (fs_enc_all ms ++ tail) = (ms, fs_end_of reg tail).
+Proof. exact fs_read_loop_prefix. Qed.
+Print Assumptions C17_read_loop_prefix_unique.
+
+(* any decode error (or EOF) ends THAT session only: it is gone from the table, every other session
+   is exactly as before, only its connection is closed *)
+Theorem C17_decode_error_ends_only_that_session : forall reg jok jnull st conn rid s st' out,
+  fs_stream_step reg jok jnull st conn rid s = (st', out) ->
+  ~ In rid (map fst st') /\
+  (forall x, In x st -> fst x <> rid -> In x st') /\
+  (forall x, In x st' -> In x st) /\
+  so_closed out = [conn] /\
+  (so_read out, so_end out) = fs_read_loop reg jok s /\ so_end out <> EndFuel /\
+  so_dispatched out = filter (fun m => negb (jnull (fst m) (snd m))) (so_read out).
+Proof. exact fs_stream_step_confined. Qed.
+Print Assumptions C17_decode_error_ends_only_that_session.
+
+(* whatever arrives on other connections and other sessions, in any number and order, a session the
+   events do not legitimately concern (its own channel ending; an ACCEPTED login under its run id)
+   stays in the table with its proxies *)
+Theorem C17_other_sessions_untouched : forall reg tl tw tv force need wsp jok jnull es st st' x,
+  fs_run reg tl tw tv force need wsp jok jnull st es = Some st' -> In x st ->
+  (forall e, In e es -> ~ fs_touches (fst x) e) -> In x st'.
+Proof. exact fs_run_keeps_untouched. Qed.
+Print Assumptions C17_other_sessions_untouched.
+
+(** * Message level: one round-trip theorem per registered message type
+   (records, conversions, type bytes and encode_T / decode_T are regenerated from pkg/msg/msg.go on
+   every run: gen/GenMsgRec.v; the JSON text layer is an oracle with parse (render o) = Some o;
+   the hypothesis says that the frame fits the declared bound, see C17_oversize_message_rejected) *)
+Theorem C17_roundtrip_Login :
+  forall render parse, (forall o, parse (render o) = Some o) ->
+  forall (m : msg_Login) rest,
+    blen (encode_Login render m) <= 9 + max_len ->
+    decode_Login parse registered (encode_Login render m ++ rest) = Some (m, rest).
+Proof. exact roundtrip_Login. Qed.
+Print Assumptions C17_roundtrip_Login.
+
+Theorem C17_roundtrip_LoginResp :
+  forall render parse, (forall o, parse (render o) = Some o) ->
+  forall (m : msg_LoginResp) rest,
+    blen (encode_LoginResp render m) <= 9 + max_len ->
+    decode_LoginResp parse registered (encode_LoginResp render m ++ rest) = Some (m, rest).
+Proof. exact roundtrip_LoginResp. Qed.
+Print Assumptions C17_roundtrip_LoginResp.
+
+Theorem C17_roundtrip_NewProxy :
+  forall render parse, (forall o, parse (render o) = Some o) ->
+  forall (m : msg_NewProxy) rest,
+    blen (encode_NewProxy render m) <= 9 + max_len ->
+    decode_NewProxy parse registered (encode_NewProxy render m ++ rest) = Some (m, rest).
+Proof. exact roundtrip_NewProxy. Qed.
+Print Assumptions C17_roundtrip_NewProxy.
+
+Theorem C17_roundtrip_NewProxyResp :
+  forall render parse, (forall o, parse (render o) = Some o) ->
+  forall (m : msg_NewProxyResp) rest,
+    blen (encode_NewProxyResp render m) <= 9 + max_len ->
+    decode_NewProxyResp parse registered (encode_NewProxyResp render m ++ rest) = Some (m, rest).
+Proof. exact roundtrip_NewProxyResp. Qed.
+Print Assumptions C17_roundtrip_NewProxyResp.
+
+Theorem C17_roundtrip_CloseProxy :
+  forall render parse, (forall o, parse (render o) = Some o) ->
+  forall (m : msg_CloseProxy) rest,
+    blen (encode_CloseProxy render m) <= 9 + max_len ->
+    decode_CloseProxy parse registered (encode_CloseProxy render m ++ rest) = Some (m, rest).
+Proof. exact roundtrip_CloseProxy. Qed.
+Print Assumptions C17_roundtrip_CloseProxy.
+
+Theorem C17_roundtrip_NewWorkConn :
+  forall render parse, (forall o, parse (render o) = Some o) ->
+  forall (m : msg_NewWorkConn) rest,
+    blen (encode_NewWorkConn render m) <= 9 + max_len ->
+    decode_NewWorkConn parse registered (encode_NewWorkConn render m ++ rest) = Some (m, rest).
+Proof. exact roundtrip_NewWorkConn. Qed.
+Print Assumptions C17_roundtrip_NewWorkConn.
+
+Theorem C17_roundtrip_ReqWorkConn :
+  forall render parse, (forall o, parse (render o) = Some o) ->
+  forall (m : msg_ReqWorkConn) rest,
+    blen (encode_ReqWorkConn render m) <= 9 + max_len ->
+    decode_ReqWorkConn parse registered (encode_ReqWorkConn render m ++ rest) = Some (m, rest).
+Proof. exact roundtrip_ReqWorkConn. Qed.
+Print Assumptions C17_roundtrip_ReqWorkConn.
+
+Theorem C17_roundtrip_StartWorkConn :
+  forall render parse, (forall o, parse (render o) = Some o) ->
+  forall (m : msg_StartWorkConn) rest,
+    blen (encode_StartWorkConn render m) <= 9 + max_len ->
+    decode_StartWorkConn parse registered (encode_StartWorkConn render m ++ rest) = Some (m, rest).
+Proof. exact roundtrip_StartWorkConn. Qed.
+Print Assumptions C17_roundtrip_StartWorkConn.
+
+Theorem C17_roundtrip_NewVisitorConn :
+  forall render parse, (forall o, parse (render o) = Some o) ->
+  forall (m : msg_NewVisitorConn) rest,
+    blen (encode_NewVisitorConn render m) <= 9 + max_len ->
+    decode_NewVisitorConn parse registered (encode_NewVisitorConn render m ++ rest) = Some (m, rest).
+Proof. exact roundtrip_NewVisitorConn. Qed.
+Print Assumptions C17_roundtrip_NewVisitorConn.
+
+Theorem C17_roundtrip_NewVisitorConnResp :
+  forall render parse, (forall o, parse (render o) = Some o) ->
+  forall (m : msg_NewVisitorConnResp) rest,
+    blen (encode_NewVisitorConnResp render m) <= 9 + max_len ->
+    decode_NewVisitorConnResp parse registered (encode_NewVisitorConnResp render m ++ rest) = Some (m, rest).
+Proof. exact roundtrip_NewVisitorConnResp. Qed.
+Print Assumptions C17_roundtrip_NewVisitorConnResp.
+
+Theorem C17_roundtrip_Ping :
+  forall render parse, (forall o, parse (render o) = Some o) ->
+  forall (m : msg_Ping) rest,
+    blen (encode_Ping render m) <= 9 + max_len ->
+    decode_Ping parse registered (encode_Ping render m ++ rest) = Some (m, rest).
+Proof. exact roundtrip_Ping. Qed.
+Print Assumptions C17_roundtrip_Ping.
+
+Theorem C17_roundtrip_Pong :
+  forall render parse, (forall o, parse (render o) = Some o) ->
+  forall (m : msg_Pong) rest,
+    blen (encode_Pong render m) <= 9 + max_len ->
+    decode_Pong parse registered (encode_Pong render m ++ rest) = Some (m, rest).
+Proof. exact roundtrip_Pong. Qed.
+Print Assumptions C17_roundtrip_Pong.
+
+Theorem C17_roundtrip_UDPPacket :
+  forall render parse, (forall o, parse (render o) = Some o) ->
+  forall (m : msg_UDPPacket) rest,
+    blen (encode_UDPPacket render m) <= 9 + max_len ->
+    decode_UDPPacket parse registered (encode_UDPPacket render m ++ rest) = Some (m, rest).
+Proof. exact roundtrip_UDPPacket. Qed.
+Print Assumptions C17_roundtrip_UDPPacket.
+
+Theorem C17_roundtrip_NatHoleVisitor :
+  forall render parse, (forall o, parse (render o) = Some o) ->
+  forall (m : msg_NatHoleVisitor) rest,
+    blen (encode_NatHoleVisitor render m) <= 9 + max_len ->
+    decode_NatHoleVisitor parse registered (encode_NatHoleVisitor render m ++ rest) = Some (m, rest).
+Proof. exact roundtrip_NatHoleVisitor. Qed.
+Print Assumptions C17_roundtrip_NatHoleVisitor.
+
+Theorem C17_roundtrip_NatHoleClient :
+  forall render parse, (forall o, parse (render o) = Some o) ->
+  forall (m : msg_NatHoleClient) rest,
+    blen (encode_NatHoleClient render m) <= 9 + max_len ->
+    decode_NatHoleClient parse registered (encode_NatHoleClient render m ++ rest) = Some (m, rest).
+Proof. exact roundtrip_NatHoleClient. Qed.
+Print Assumptions C17_roundtrip_NatHoleClient.
+
+Theorem C17_roundtrip_NatHoleResp :
+  forall render parse, (forall o, parse (render o) = Some o) ->
+  forall (m : msg_NatHoleResp) rest,
+    blen (encode_NatHoleResp render m) <= 9 + max_len ->
+    decode_NatHoleResp parse registered (encode_NatHoleResp render m ++ rest) = Some (m, rest).
+Proof. exact roundtrip_NatHoleResp. Qed.
+Print Assumptions C17_roundtrip_NatHoleResp.
+
+Theorem C17_roundtrip_NatHoleSid :
+  forall render parse, (forall o, parse (render o) = Some o) ->
+  forall (m : msg_NatHoleSid) rest,
+    blen (encode_NatHoleSid render m) <= 9 + max_len ->
+    decode_NatHoleSid parse registered (encode_NatHoleSid render m ++ rest) = Some (m, rest).
+Proof. exact roundtrip_NatHoleSid. Qed.
+Print Assumptions C17_roundtrip_NatHoleSid.
+
+Theorem C17_roundtrip_NatHoleReport :
+  forall render parse, (forall o, parse (render o) = Some o) ->
+  forall (m : msg_NatHoleReport) rest,
+    blen (encode_NatHoleReport render m) <= 9 + max_len ->
+    decode_NatHoleReport parse registered (encode_NatHoleReport render m ++ rest) = Some (m, rest).
+Proof. exact roundtrip_NatHoleReport. Qed.
+Print Assumptions C17_roundtrip_NatHoleReport.
+
+(* every message type registered in today's msg.go has its corollary above *)
+Definition C17_roundtrip_names : list string :=
+  ["Login"; "LoginResp"; "NewProxy"; "NewProxyResp"; "CloseProxy"; "NewWorkConn"; "ReqWorkConn"; "StartWorkConn"; "NewVisitorConn"; "NewVisitorConnResp"; "Ping"; "Pong"; "UDPPacket"; "NatHoleVisitor"; "NatHoleClient"; "NatHoleResp"; "NatHoleSid"; "NatHoleReport"]%string.
+Theorem C17_roundtrip_covers_registry :
+  forallb (fun n => existsb (String.eqb n) C17_roundtrip_names) (map snd type_map) &&
+  forallb (fun n => existsb (String.eqb n) (map snd type_map)) C17_roundtrip_names &&
+  forallb (fun n => existsb (String.eqb n) msg_rec_names) C17_roundtrip_names = true.
+Proof. vm_compute. reflexivity. Qed.
+Print Assumptions C17_roundtrip_covers_registry.
+
+(* the bound in the round trips is exact: WriteMsg does not check it, and an encoding that does not
+   fit is refused by every decoder, so such a message cannot be delivered (generic in the message type) *)
+Theorem C17_oversize_message_rejected :
+  forall render parse {A} n b fs (to : A -> list gv) (of : list gv -> option A),
+    reg_entry today_registry b n = true ->
+    forall m rest,
+      9 + max_len < blen (encode_rec render b fs to m) < 2 ^ 63 ->
+      decode_rec parse registered b fs of (encode_rec render b fs to m ++ rest) = None.
+Proof. intros render parse A. exact (rec_oversize_rejected render parse today_registry). Qed.
+Print Assumptions C17_oversize_message_rejected.
+
+(* *net.UDPAddr fields of UDPPacket: a nil pointer and a pointer to the zero value are different
+   messages, encode differently (omitempty drops only nil) and both come back as they were; what IS
+   identified, inside msg_UDPAddr, is the IP as its text form ("" for a nil or an empty IP, the 4- and
+   16-byte forms of an IPv4 address) *)
+Example C17_udpaddr_nil_vs_zero :
+  let zero := {| UDPAddr_IP := []; UDPAddr_Port := 0; UDPAddr_Zone := [] |} in
+  let p_nil := {| UDPPacket_Content := []; UDPPacket_LocalAddr := None; UDPPacket_RemoteAddr := None |} in
+  let p_zero := {| UDPPacket_Content := []; UDPPacket_LocalAddr := Some zero; UDPPacket_RemoteAddr := None |} in
+  enc_obj schema_UDPPacket (to_gv_UDPPacket p_nil) = [] /\
+  enc_obj schema_UDPPacket (to_gv_UDPPacket p_zero) =
+    [(bs "l", JObj [(bs "IP", JStr []); (bs "Port", JNum 0); (bs "Zone", JStr [])])] /\
+  obind (dec_obj schema_UDPPacket (enc_obj schema_UDPPacket (to_gv_UDPPacket p_nil))) of_gv_UDPPacket = Some p_nil /\
+  obind (dec_obj schema_UDPPacket (enc_obj schema_UDPPacket (to_gv_UDPPacket p_zero))) of_gv_UDPPacket = Some p_zero /\
+  p_nil <> p_zero.
+Proof. vm_compute. repeat split; discriminate. Qed.
+
 (* non-vacuity: a concrete registered type and frame *)
 Example C17_example_registered : registered "o"%byte = true /\ registered "z"%byte = false /\
   decode_frame registered (hx "6f00000000000000027b7d") =
   DOk {| d_type := "o"%byte; d_body := hx "7b7d"; d_rest := [] |} 11 2.
+Proof. vm_compute. repeat split. Qed.
+
+(* non-vacuity of the system-level statements: a concrete unexpected first message (a Ping frame) is
+   closed without a trace, a concrete Login frame is an expected first message and is dispatched *)
+Example C17_example_first_bytes :
+  let tl := "o"%byte in let tw := "w"%byte in let tv := "v"%byte in
+  let wsp := bs "GET /~!frp" in
+  let ev b := {| fe_conn := 7; fe_bytes := b; fe_eof := false; fe_inner := None; fe_json := JMsg;
+                 fe_handler := HAccept (bs "r1") |} in
+  let st := [(bs "A", [bs "p"])] in
+  fs_first_step registered tl tw tv false 10 wsp st (ev (hx "6800000000000000027b7d")) =
+    Some (st, {| fo_close := CloseNow; fo_reply := RNone; fo_act := ActClose; fo_closed := [7] |}) /\
+  fs_first_step registered tl tw tv false 10 wsp st (ev (hx "6f00000000000000027b7d")) =
+    Some ([(bs "A", [bs "p"]); (bs "r1", [])],
+          {| fo_close := KeepOpen; fo_reply := RLoginOk; fo_act := ActLogin; fo_closed := [] |}) /\
+  fs_read_loop registered (fun _ _ => true) (hx "6800000000000000027b7d" ++ hx "6800000000000000027b7d" ++ hx "7a00") =
+    ([("h"%byte, hx "7b7d"); ("h"%byte, hx "7b7d")], EndFrame ErrType).
 Proof. vm_compute. repeat split. Qed.
